@@ -189,30 +189,33 @@ template<typename K> bool generate_family(const FamilySpec &f, size_t eps, std::
         // multiplier between 1 and 8 occur exactly `word` clusters before every boundary of a split of the cluster sequence into `chunks` parts: if an upper level (which has
         // one point per bottom segment) is built by the chunked builder, the last segment of every chunk is `word` points long.
         long C = f.rep, p = f.chunks, per = C / p; W cur = 1000; int m = 0;
+        long csz = 2 * long(eps) + 2;   // a cluster of 2*eps+2 consecutive keys cannot share a segment with the next cluster
         const W mult[2] = {1, 8};
         for (long c = 0; c < C; ++c) {
             // a jump in key space (no line can absorb the points after it) and a density toggle `word` clusters before each boundary
             for (long j = 1; j < p; ++j) if (c == j * per - f.word) { m ^= 1; cur += W(1) << 24; }
             if (f.width > 0 && c % f.width == 0) m ^= 1;   // background zig-zag of period `width` clusters, so that the upper-level models use their whole error band
             size_t first_pos = keys.size();
-            for (int j = 0; j < 4; ++j) { cur += 1; keys.push_back(cur); }
-            cur += 40 * mult[m];
-            focus.push_back(first_pos); focus.push_back(first_pos + 3);
+            for (long j = 0; j < csz; ++j) { cur += 1; keys.push_back(cur); }
+            cur += 10 * csz * mult[m];
+            focus.push_back(first_pos); focus.push_back(first_pos + size_t(csz) - 1);
         }
         if (cur > hi) return false;
     } else if (f.kind == "density") {
-        // clusters of 4 keys with stride 1 separated by a gap 40*m; the multiplier m changes every `rep` clusters following the digits of
+        // clusters of 2*eps+2 keys with stride 1 separated by a gap 10*(2*eps+2)*m; the multiplier m changes every `rep` clusters following the digits of
         // `word` (base 4 -> multipliers 1,2,4,8), `width` digits: many short bottom segments and several segments on the upper levels.
         // `seam` encodes an optional jump: 1 = gap of 3x the span so far after the first digit block, 2 = 30x after the first block,
         // 3 = 30x after the third block (heavily skewed segment keys: long runs of empty Elias-Fano / top-level buckets).
         long w = f.word; W cur = 1000;
         const W mult[4] = {1, 2, 4, 8};
+        long csz = 2 * long(eps) + 2;   // cluster size: one segment per cluster for this epsilon
+        if (csz * f.rep * f.width > 800000) return false;   // member too large for this epsilon
         for (long d = 0; d < f.width; ++d, w /= 4) {
             for (long c = 0; c < f.rep; ++c) {
                 size_t first_pos = keys.size();
-                for (int j = 0; j < 4; ++j) { cur += 1; keys.push_back(cur); }
-                cur += 40 * mult[w % 4];
-                if (f.rep * f.width <= 60000 || c < 3 || c + 3 >= f.rep || c % 37 == 0) { focus.push_back(first_pos); focus.push_back(first_pos + 3); }
+                for (long j = 0; j < csz; ++j) { cur += 1; keys.push_back(cur); }
+                cur += 10 * csz * mult[w % 4];
+                if (f.rep * f.width <= 60000 || c < 3 || c + 3 >= f.rep || c % 37 == 0) { focus.push_back(first_pos); focus.push_back(first_pos + size_t(csz) - 1); }
             }
             if ((f.seam == 1 && d == 0) || (f.seam == 2 && d == 0) || (f.seam == 3 && d == 2)) {
                 W span = cur - 1000, jump = span * (f.seam == 1 ? 3 : 30);
